@@ -93,10 +93,10 @@ def configs(tier):
             for sc in (None, 2.0, -0.5):
                 cfgs.append({'kind': 'quadform', 'space': sp, 'mat': 'none', 'vec': 1, 'const': c,
                              'scale': sc})
-    for sp in ('rn3', 'rn3f32', 'ud3', 'rn1', 'rn2', 'rn4'):
+    for sp in ('rn3', 'rn3f32', 'ud3', 'rn1', 'rn2', 'rn4', 'rn2x2'):
         for meth in ('forward', 'central', 'backward'):
             for nm in ('L2NormSquared', 'Huber', 'KullbackLeibler'):
-                if nm == 'KullbackLeibler' and sp in ('rn3f32', 'rn1', 'rn2', 'rn4'):
+                if nm == 'KullbackLeibler' and sp in ('rn3f32', 'rn1', 'rn2', 'rn4', 'rn2x2'):
                     continue
                 cfgs.append({'kind': 'numgrad', 'space': sp, 'method': meth, 'name': nm})
     # simple_functional: which of the ingredients are given, and in which form
@@ -141,7 +141,7 @@ def _site(cfg):
                                                      _sk(cfg['space']) if cfg['space'] != 'rn3f32'
                                                      else 'tensor,unweighted',
                                                      ',size=%s' % cfg['space'][2:]
-                                                     if cfg['space'] in ('rn1', 'rn2', 'rn4') else '')
+                                                     if cfg['space'] in ('rn1', 'rn2', 'rn4') else ',shape=2x2' if cfg['space'] == 'rn2x2' else '')
     if k == 'simple':
         return 'simple_functional%s[%s,%s,%s]' % ('.convex_conj' if cfg.get('conj') else '',
                                                    cfg['given'], cfg['form'], _sk(cfg['space']))
